@@ -44,7 +44,8 @@ impl Prop for C01 {
         ]
     }
     fn domains(&self) -> Vec<Box<dyn Domain>> {
-        vec![Box::new(SeqDomain {
+        vec![
+        Box::new(SeqDomain {
             name: "seq",
             quick: 6_000,
             thorough: 300_000,
@@ -53,6 +54,25 @@ impl Prop for C01 {
             owns: |v| matches!(v.rule, Rule::ReadLen | Rule::ReadData | Rule::Frame | Rule::MappingKind),
             nontrivial: |r, _| r.stats.ops_done >= 3 && (r.stats.reads_of_modified > 0 || r.stats.reads_of_initial_nonzero > 0),
             tweak: no_tweak,
+            case_tags: no_tags,
+            extra_classes: no_classes,
+            max_sched: 200,
+            max_extra: 0,
+        }),
+        // fragmentation histories (see C03): allocations pieced together across refcount-block
+        // slices and refcount blocks, judged by the data oracle
+        Box::new(SeqDomain {
+            name: "frag",
+            quick: 2_000,
+            thorough: 80_000,
+            profile: || Profile {
+                max_clusters: 400,
+                ..super::seqprops::frag_profile()
+            },
+            cfg,
+            owns: |v| matches!(v.rule, Rule::ReadLen | Rule::ReadData | Rule::Frame | Rule::MappingKind),
+            nontrivial: |r, _| r.stats.ops_done >= 3 && (r.stats.reads_of_modified > 0 || r.stats.reads_of_initial_nonzero > 0),
+            tweak: |c, raw, _, _| super::seqprops::frag_ops(c, raw),
             case_tags: no_tags,
             extra_classes: no_classes,
             max_sched: 200,
